@@ -19,6 +19,7 @@ func VX_Session_History(args []int) {
 		nOps = 11 // also: a REPLY nobody waits for, a frame of an unsupported type
 	}
 	unsupportedFed := false
+	explicitClose := false
 	snaps := vxSnapSentinels()
 	var log []string
 	pl := newVxPlugin("rec", &log)
@@ -218,6 +219,7 @@ func VX_Session_History(args []int) {
 		case 7: // local Close
 			vxAssume(!closeBegun)
 			closeBegun = true
+			explicitClose = true
 			lostBeforeClose = lost
 			go func() {
 				s.Close()
@@ -250,8 +252,11 @@ func VX_Session_History(args []int) {
 	for _, o := range outs {
 		vxAssert(vxDone(o.cmd) && len(o.ch) == 1, "[C02] every call completed and was delivered exactly once")
 	}
+	if unsupportedFed {
+		vxAssert(conn.isClosed() && conn.closes == 1, "[C03] after a frame of an unsupported type the connection ends up closed")
+	}
 	vxAssert(vxBlockedThreads() == 0, "[C02] nobody is left blocked")
-	if closeBegun {
+	if explicitClose {
 		vxAssert(vxClosedChan(closedCh), "[C08] Close has returned")
 	}
 	vxAssert(!s.Health(), "[C07] the ended session is unhealthy")
@@ -263,9 +268,7 @@ func VX_Session_History(args []int) {
 	}
 	vxAssert(vxCount(log, "rec:PostDisconnect") == 1, "[C07] the disconnect hook ran exactly once")
 	vxAssert(conn.closes == 1, "[C07] the connection was closed exactly once")
-	if unsupportedFed {
-		vxAssert(conn.isClosed() && conn.closes == 1, "[C03] after a frame of an unsupported type the connection ends up closed")
-	}
+
 	vxCheckSentinels(snaps)
 	vxCover("session.history")
 }
